@@ -533,3 +533,441 @@ Proof. induction 1; cbn; congruence. Qed.
 Lemma Forall2_imp {X Y} (R R' : X -> Y -> Prop) l l' :
   (forall x y, R x y -> R' x y) -> Forall2 R l l' -> Forall2 R' l l'.
 Proof. intros H. induction 1; constructor; auto. Qed.
+
+(* ====================================================================== *)
+(* Part 5.  Field routes: reading, writing with on-demand allocation         *)
+(* ====================================================================== *)
+
+(* the route r resolves, from type t through structs and (embedded) pointers to
+   structs of the environment, to exactly type ft; every struct type on the
+   way has a computable zero value *)
+Fixpoint route_okb (E : tenv) (t : gtype) (r : list nat) (ft : gtype) : bool :=
+  match r with
+  | [] => gtype_eqb t ft
+  | i :: r' =>
+      let st := match t with GPtr t' => t' | _ => t end in
+      no_bad (zero_of E st) &&
+      match strip_named st with
+      | GStruct id =>
+          match env_fields E id with
+          | Some fts => match nth_error fts i with Some fti => route_okb E fti r' ft | None => false end
+          | None => false
+          end
+      | _ => false
+      end
+  end.
+
+(* how a route step sees a value of type t: the struct type, its fields
+   (those of a fresh zero struct behind a nil pointer), whether the result of
+   an update is re-wrapped in a pointer, and what [traverse] sees *)
+Inductive sview (E : tenv) (t : gtype) (v : gval) : gtype -> list gval -> bool -> option (list gval) -> Prop :=
+| sv_ptr t' fs : t = GPtr t' -> v = VPtr (Some (VStruct fs)) -> sview E t v t' fs true (Some fs)
+| sv_nil t' fs : t = GPtr t' -> v = VPtr None -> zero_of E t' = VStruct fs -> sview E t v t' fs true None
+| sv_val fs : (forall t', t <> GPtr t') -> v = VStruct fs -> sview E t v t fs false (Some fs).
+
+Lemma route_get_S E f t v i r : route_get E (S f) t v (i :: r) =
+  let '(st, sv) :=
+    match t, v with
+    | GPtr t', VPtr (Some x) => (t', x)
+    | GPtr t', VPtr None => (t', zero_of E t')
+    | _, _ => (t, v)
+    end in
+  match strip_named st, sv with
+  | GStruct id, VStruct fs =>
+      match env_fields E id, nth_error fs i with
+      | Some fts, Some fv =>
+          match nth_error fts i with
+          | Some ft => route_get E f ft fv r
+          | None => None
+          end
+      | _, _ => None
+      end
+  | _, _ => None
+  end.
+Proof. reflexivity. Qed.
+
+Lemma route_set_S E f t v i r nv : route_set E (S f) t v (i :: r) nv =
+  let '(st, sv, wrap) :=
+    match t, v with
+    | GPtr t', VPtr (Some x) => (t', x, true)
+    | GPtr t', VPtr None => (t', zero_of E t', true)
+    | _, _ => (t, v, false)
+    end in
+  match strip_named st, sv with
+  | GStruct id, VStruct fs =>
+      match env_fields E id, nth_error fs i with
+      | Some fts, Some fv =>
+          match nth_error fts i with
+          | Some ft =>
+              match route_set E f ft fv r nv with
+              | Some fv' =>
+                  let s' := VStruct (replace_nth fs i fv') in
+                  Some (if wrap then VPtr (Some s') else s')
+              | None => None
+              end
+          | None => None
+          end
+      | _, _ => None
+      end
+  | _, _ => None
+  end.
+Proof. reflexivity. Qed.
+
+Lemma route_get_view E f t v st fs w so id fts fti i r :
+  sview E t v st fs w so -> strip_named st = GStruct id -> env_fields E id = Some fts ->
+  nth_error fts i = Some fti ->
+  route_get E (S f) t v (i :: r) =
+  match nth_error fs i with Some fv => route_get E f fti fv r | None => None end.
+Proof.
+  intros Hv Hs He Hn. rewrite route_get_S.
+  destruct Hv as [t' fs Ht Hv | t' fs Ht Hv Hz | fs Ht Hv]; subst.
+  - rewrite Hs, He. destruct (nth_error fs i); [rewrite Hn|]; reflexivity.
+  - rewrite Hz, Hs, He. destruct (nth_error fs i); [rewrite Hn|]; reflexivity.
+  - destruct t; try (exfalso; eapply Ht; reflexivity);
+      cbv iota; rewrite Hs, He; (destruct (nth_error fs i); [rewrite Hn|]; reflexivity).
+Qed.
+
+Lemma route_set_view E f t v st fs w so id fts fti i r nv :
+  sview E t v st fs w so -> strip_named st = GStruct id -> env_fields E id = Some fts ->
+  nth_error fts i = Some fti ->
+  route_set E (S f) t v (i :: r) nv =
+  match nth_error fs i with
+  | Some fv =>
+      match route_set E f fti fv r nv with
+      | Some fv' => Some (if w then VPtr (Some (VStruct (replace_nth fs i fv'))) else VStruct (replace_nth fs i fv'))
+      | None => None
+      end
+  | None => None
+  end.
+Proof.
+  intros Hv Hs He Hn. rewrite route_set_S.
+  destruct Hv as [t' fs Ht Hv | t' fs Ht Hv Hz | fs Ht Hv]; subst.
+  - rewrite Hs, He. destruct (nth_error fs i); [rewrite Hn|]; reflexivity.
+  - rewrite Hz, Hs, He. destruct (nth_error fs i); [rewrite Hn|]; reflexivity.
+  - destruct t; try (exfalso; eapply Ht; reflexivity);
+      cbv iota; rewrite Hs, He; (destruct (nth_error fs i); [rewrite Hn|]; reflexivity).
+Qed.
+
+Lemma traverse_view E t v st fs w so i r :
+  sview E t v st fs w so ->
+  traverse (i :: r) v =
+  match so with
+  | Some fs' => match nth_error fs' i with Some fv => traverse r fv | None => None end
+  | None => None
+  end.
+Proof. intros Hv. destruct Hv; subst; reflexivity. Qed.
+
+Lemma wt_ptr_inv E A t' v : wt E A (GPtr t') v -> v = VPtr None \/ exists x, v = VPtr (Some x) /\ wt E A t' x.
+Proof.
+  unfold wt. destruct v; cbn; try discriminate. destruct o as [x|]; [|auto].
+  intros H. right. exists x. auto.
+Qed.
+
+Lemma wt_struct_inv E A t v id :
+  wt E A t v -> strip_named t = GStruct id ->
+  exists fts fs, v = VStruct fs /\ env_fields E id = Some fts /\ wt_fields E A fts fs = true.
+Proof.
+  unfold wt. intros H Hs. destruct v; cbn [wtb] in H; rewrite Hs in H; try discriminate.
+  fold (wtb E A) in H.
+  assert (H' : wtb E A t (VStruct fields) = true) by (cbn [wtb]; rewrite Hs; exact H).
+  rewrite wt_struct_eq, Hs in H'. destruct (env_fields E id) as [fts|]; [|discriminate].
+  exists fts, fields. auto.
+Qed.
+
+(* the view exists for every well-typed value along an admissible route *)
+Lemma sview_exists E A t v i r ft :
+  wt E A t v -> route_okb E t (i :: r) ft = true ->
+  exists st id fts fti fs w so,
+    sview E t v st fs w so /\ strip_named st = GStruct id /\ env_fields E id = Some fts /\
+    nth_error fts i = Some fti /\ route_okb E fti r ft = true /\ wt_fields E A fts fs = true /\
+    no_bad (zero_of E st) = true /\
+    (so = None -> fs = map (zero_of E) fts).
+Proof.
+  intros Hw Hr. cbn [route_okb] in Hr.
+  set (st := match t with GPtr t' => t' | _ => t end) in *.
+  apply andb_true_iff in Hr. destruct Hr as [Hnb Hr].
+  destruct (strip_named st) as [| | | | | | | | | | | |id| | |] eqn:Hs; try discriminate.
+  destruct (env_fields E id) as [fts|] eqn:He; [|discriminate].
+  destruct (nth_error fts i) as [fti|] eqn:Hn; [|discriminate].
+  destruct (zero_of_struct E st id fts Hnb Hs He) as [Hz Hzf].
+  assert (Hcase : (exists t', t = GPtr t') \/ (forall t', t <> GPtr t')).
+  { destruct t; try (right; intros t' Hc; discriminate). left. eexists. reflexivity. }
+  destruct Hcase as [[t' Ht] | Hnp].
+  - subst t. cbn in st. subst st. destruct (wt_ptr_inv E A t' v Hw) as [Hv | [x [Hv Hx]]].
+    + exists t', id, fts, fti, (map (zero_of E) fts), true, None.
+      repeat split; auto.
+      * eapply sv_nil; eauto.
+      * apply wt_fields_zero. intros ft0 Hin. apply zero_wt.
+        rewrite forallb_forall in Hzf. apply Hzf. exact Hin.
+    + destruct (wt_struct_inv E A t' x id Hx Hs) as (fts' & fs & Hxs & He' & Hwf).
+      rewrite He in He'. inversion He'; subst fts'.
+      exists t', id, fts, fti, fs, true, (Some fs). subst.
+      repeat split; auto; try discriminate. eapply sv_ptr; eauto.
+  - assert (Hst : st = t) by (subst st; destruct t; try reflexivity; exfalso; eapply Hnp; reflexivity).
+    rewrite Hst in *. destruct (wt_struct_inv E A t v id Hw Hs) as (fts' & fs & Hxs & He' & Hwf).
+    rewrite He in He'. inversion He'; subst fts'.
+    exists t, id, fts, fti, fs, false, (Some fs). subst.
+    repeat split; auto; try discriminate. eapply sv_val; eauto.
+Qed.
+
+Lemma nth_error_replace_same {X} : forall (l : list X) i x y,
+  nth_error l i = Some y -> nth_error (replace_nth l i x) i = Some x.
+Proof.
+  induction l as [|a l IH]; intros [|i] x y H; cbn in *; try discriminate; [reflexivity|].
+  eapply IH. exact H.
+Qed.
+
+Lemma nth_error_replace_other {X} : forall (l : list X) i j x,
+  i <> j -> nth_error (replace_nth l i x) j = nth_error l j.
+Proof.
+  induction l as [|a l IH]; intros [|i] [|j] x H; cbn; try reflexivity; try contradiction.
+  apply IH. intros Hc. apply H. f_equal. exact Hc.
+Qed.
+
+Lemma nth_error_same_length {X Y} (l : list X) (l' : list Y) i x :
+  length l = length l' -> nth_error l i = Some x -> exists y, nth_error l' i = Some y.
+Proof.
+  intros Hl Hn. destruct (nth_error l' i) as [y|] eqn:Hy; [eauto|].
+  apply nth_error_None in Hy. assert (i < length l)%nat by (apply nth_error_Some; congruence). lia.
+Qed.
+
+Lemma unrelated_sym a b : unrelated a b = unrelated b a.
+Proof. unfold unrelated. apply andb_comm. Qed.
+
+Lemma unrelated_nil_l b : unrelated [] b = false.
+Proof. reflexivity. Qed.
+
+Lemma unrelated_nil_r a : unrelated a [] = false.
+Proof. unfold unrelated. cbn. apply andb_false_r. Qed.
+
+Lemma unrelated_cons_ne i j a b : i <> j -> unrelated (i :: a) (j :: b) = true.
+Proof.
+  intros H. unfold unrelated. cbn.
+  assert (Nat.eqb i j = false) by (apply Nat.eqb_neq; exact H).
+  assert (Nat.eqb j i = false) by (apply Nat.eqb_neq; auto).
+  rewrite H0, H1. reflexivity.
+Qed.
+
+Lemma zero_of_ptr E t : zero_of E (GPtr t) = VPtr None.
+Proof. rewrite zero_of_unf. reflexivity. Qed.
+
+Lemma route_okb_cons_inv E t i r ft :
+  route_okb E t (i :: r) ft = true ->
+  exists id fts fti,
+    no_bad (zero_of E (match t with GPtr t' => t' | _ => t end)) = true /\
+    strip_named (match t with GPtr t' => t' | _ => t end) = GStruct id /\
+    env_fields E id = Some fts /\ nth_error fts i = Some fti /\ route_okb E fti r ft = true.
+Proof.
+  intros Hr. cbn [route_okb] in Hr.
+  set (st := match t with GPtr t' => t' | _ => t end) in *.
+  apply andb_true_iff in Hr. destruct Hr as [Hnb Hr].
+  destruct (strip_named st) as [| | | | | | | | | | | |id| | |] eqn:Hs; try discriminate.
+  destruct (env_fields E id) as [fts|] eqn:He; [|discriminate].
+  destruct (nth_error fts i) as [fti|] eqn:Hn; [|discriminate].
+  exists id, fts, fti. auto.
+Qed.
+
+Lemma sview_st E t v st fs w so :
+  sview E t v st fs w so -> st = match t with GPtr t' => t' | _ => t end.
+Proof.
+  intros H. destruct H as [t' fs Ht Hv | t' fs Ht Hv Hz | fs Ht Hv]; subst; try reflexivity.
+  destruct t; try reflexivity. exfalso. eapply Ht. reflexivity.
+Qed.
+
+Lemma sview_upd_wt E A t v st fs w so fs' :
+  sview E t v st fs w so -> wt E A st (VStruct fs') ->
+  wt E A t (if w then VPtr (Some (VStruct fs')) else VStruct fs').
+Proof. intros H Hw. destruct H; subst; exact Hw. Qed.
+
+Lemma traverse_upd (w : bool) fs' i r :
+  traverse (i :: r) (if w then VPtr (Some (VStruct fs')) else VStruct fs') =
+  match nth_error fs' i with Some f => traverse r f | None => None end.
+Proof. destruct w; reflexivity. Qed.
+
+(* a route into a zero value finds nothing or the zero value of the field *)
+Lemma traverse_zero E : forall r t ft,
+  route_okb E t r ft = true ->
+  traverse r (zero_of E t) = None \/ traverse r (zero_of E t) = Some (zero_of E ft).
+Proof.
+  induction r as [|i r IH]; intros t ft Hr.
+  - cbn in Hr. apply gtype_eqb_eq in Hr. subst. right. reflexivity.
+  - destruct (route_okb_cons_inv E t i r ft Hr) as (id & fts & fti & Hnb & Hs & He & Hn & Hr').
+    destruct t; try (destruct (zero_of_struct E _ id fts Hnb Hs He) as [Hz _]; rewrite Hz;
+      cbn [traverse]; rewrite (map_nth_error (zero_of E) i fts Hn); apply IH; exact Hr').
+    rewrite zero_of_ptr. left. reflexivity.
+Qed.
+
+(* what is unreachable in a value is unreachable in the zero value of its type *)
+Lemma traverse_none_zero E A : forall s t v ft,
+  wt E A t v -> route_okb E t s ft = true -> traverse s v = None -> traverse s (zero_of E t) = None.
+Proof.
+  induction s as [|i s IH]; intros t v ft Hw Hr Hn; [discriminate|].
+  destruct (sview_exists E A t v i s ft Hw Hr) as (st & id & fts & fti & fs & w & so & Hv & Hs & He & Hni & Hr' & Hwf & Hnb & Hso).
+  rewrite (traverse_view E t v st fs w so i s Hv) in Hn.
+  destruct Hv as [t' fs Ht Hvv | t' fs Ht Hvv Hz | fs Ht Hvv]; subst.
+  - rewrite zero_of_ptr. reflexivity.
+  - rewrite zero_of_ptr. reflexivity.
+  - destruct (zero_of_struct E _ id fts Hnb Hs He) as [Hz _]. rewrite Hz.
+    cbn [traverse]. rewrite (map_nth_error (zero_of E) i fts Hni).
+    destruct (nth_error_same_length fts fs i fti (eq_sym (wt_fields_length E A fts fs Hwf)) Hni) as [fv Hfv].
+    rewrite Hfv in Hn. eapply IH; [| exact Hr' | exact Hn].
+    eapply wt_fields_nth; eassumption.
+Qed.
+
+(* reading a route with on-demand allocation *)
+Lemma route_get_ok E A : forall r fuel t c ft,
+  wt E A t c -> route_okb E t r ft = true -> (length r < fuel)%nat ->
+  exists x, route_get E fuel t c r = Some x /\
+            (traverse r c = Some x \/ (traverse r c = None /\ x = zero_of E ft)).
+Proof.
+  induction r as [|i r IH]; intros fuel t c ft Hw Hr Hl; (destruct fuel as [|f]; [cbn in Hl; lia|]).
+  - exists c. split; [reflexivity|]. left. reflexivity.
+  - destruct (sview_exists E A t c i r ft Hw Hr) as (st & id & fts & fti & fs & w & so & Hv & Hs & He & Hni & Hr' & Hwf & Hnb & Hso).
+    rewrite (route_get_view E f t c st fs w so id fts fti i r Hv Hs He Hni).
+    rewrite (traverse_view E t c st fs w so i r Hv).
+    destruct (nth_error_same_length fts fs i fti (eq_sym (wt_fields_length E A fts fs Hwf)) Hni) as [fv Hfv].
+    rewrite Hfv.
+    assert (Hwv : wt E A fti fv) by (eapply wt_fields_nth; eassumption).
+    destruct (IH f fti fv ft Hwv Hr') as (x & Hg & Hx); [cbn in Hl; lia|].
+    exists x. split; [exact Hg|].
+    destruct so as [fs'|].
+    + assert (fs' = fs) by (destruct Hv; congruence). subst fs'. rewrite Hfv. exact Hx.
+    + right. split; [reflexivity|].
+      rewrite (Hso eq_refl) in Hfv. rewrite (map_nth_error (zero_of E) i fts Hni) in Hfv.
+      inversion Hfv; subst fv.
+      destruct (traverse_zero E r fti ft Hr') as [Hz | Hz]; destruct Hx as [Hx | [Hx1 Hx2]]; congruence.
+Qed.
+
+(* writing a route with on-demand allocation *)
+Lemma route_set_ok E A : forall r fuel t c ft nv,
+  wt E A t c -> route_okb E t r ft = true -> wt E A ft nv -> (length r < fuel)%nat ->
+  exists c', route_set E fuel t c r nv = Some c' /\ wt E A t c' /\ traverse r c' = Some nv.
+Proof.
+  induction r as [|i r IH]; intros fuel t c ft nv Hw Hr Hnv Hl; (destruct fuel as [|f]; [cbn in Hl; lia|]).
+  - exists nv. cbn in Hr. apply gtype_eqb_eq in Hr. subst. repeat split; auto.
+  - destruct (sview_exists E A t c i r ft Hw Hr) as (st & id & fts & fti & fs & w & so & Hv & Hs & He & Hni & Hr' & Hwf & Hnb & Hso).
+    rewrite (route_set_view E f t c st fs w so id fts fti i r nv Hv Hs He Hni).
+    destruct (nth_error_same_length fts fs i fti (eq_sym (wt_fields_length E A fts fs Hwf)) Hni) as [fv Hfv].
+    rewrite Hfv.
+    assert (Hwv : wt E A fti fv) by (eapply wt_fields_nth; eassumption).
+    destruct (IH f fti fv ft nv Hwv Hr' Hnv) as (fv' & Hg & Hw' & Ht'); [cbn in Hl; lia|].
+    rewrite Hg. eexists. split; [reflexivity|]. split.
+    + eapply sview_upd_wt; [exact Hv|]. unfold wt. rewrite wt_struct_eq, Hs, He.
+      eapply wt_fields_replace; eassumption.
+    + rewrite traverse_upd. rewrite (nth_error_replace_same fs i fv' fv Hfv). exact Ht'.
+Qed.
+
+Lemma sview_so E t v st fs w so fs' : sview E t v st fs w so -> so = Some fs' -> fs' = fs.
+Proof. intros H Hs. destruct H; congruence. Qed.
+
+(* a write leaves what unrelated routes reach untouched *)
+Lemma route_set_keeps E A : forall r r0 fuel t c ft nv c' x,
+  wt E A t c -> route_okb E t r ft = true -> unrelated r0 r = true ->
+  route_set E fuel t c r nv = Some c' -> traverse r0 c = Some x -> traverse r0 c' = Some x.
+Proof.
+  induction r as [|i r IH]; intros r0 fuel t c ft nv c' x Hw Hr Hu Hset Ht.
+  - rewrite unrelated_nil_r in Hu. discriminate.
+  - destruct r0 as [|j r2]; [discriminate|].
+    destruct fuel as [|f]; [discriminate|].
+    destruct (sview_exists E A t c i r ft Hw Hr) as (st & id & fts & fti & fs & w & so & Hv & Hs & He & Hni & Hr' & Hwf & Hnb & Hso).
+    rewrite (route_set_view E f t c st fs w so id fts fti i r nv Hv Hs He Hni) in Hset.
+    rewrite (traverse_view E t c st fs w so j r2 Hv) in Ht.
+    destruct so as [fs'|]; [|discriminate].
+    rewrite (sview_so E t c st fs w _ fs' Hv eq_refl) in *.
+    destruct (nth_error fs i) as [fv|] eqn:Hfv; [|discriminate].
+    destruct (route_set E f fti fv r nv) as [fv'|] eqn:Hg; [|discriminate].
+    inversion Hset; subst c'. rewrite traverse_upd.
+    destruct (Nat.eq_dec i j) as [Hij | Hij].
+    + subst j. rewrite (nth_error_replace_same fs i fv' fv Hfv). rewrite Hfv in Ht.
+      rewrite unrelated_cons in Hu.
+      eapply IH; [| exact Hr' | exact Hu | exact Hg | exact Ht].
+      eapply wt_fields_nth; eassumption.
+    + rewrite (nth_error_replace_other fs i j fv' Hij). exact Ht.
+Qed.
+
+(* a write keeps unrelated blank fields blank *)
+Lemma route_set_blank E A : forall r r0 fuel t c ft ft0 nv c',
+  wt E A t c -> route_okb E t r ft = true -> route_okb E t r0 ft0 = true -> unrelated r0 r = true ->
+  route_set E fuel t c r nv = Some c' ->
+  (traverse r0 c = None \/ traverse r0 c = Some (zero_of E ft0)) ->
+  (traverse r0 c' = None \/ traverse r0 c' = Some (zero_of E ft0)).
+Proof.
+  induction r as [|i r IH]; intros r0 fuel t c ft ft0 nv c' Hw Hr Hr0 Hu Hset Ht.
+  - rewrite unrelated_nil_r in Hu. discriminate.
+  - destruct r0 as [|j r2]; [discriminate|].
+    destruct fuel as [|f]; [discriminate|].
+    destruct (sview_exists E A t c i r ft Hw Hr) as (st & id & fts & fti & fs & w & so & Hv & Hs & He & Hni & Hr' & Hwf & Hnb & Hso).
+    destruct (route_okb_cons_inv E t j r2 ft0 Hr0) as (id0 & fts0 & ftj & _ & Hs0 & He0 & Hnj & Hr0').
+    rewrite <- (sview_st E t c st fs w so Hv) in Hs0. rewrite Hs in Hs0. inversion Hs0; subst id0.
+    rewrite He in He0. inversion He0; subst fts0. clear Hs0 He0.
+    rewrite (route_set_view E f t c st fs w so id fts fti i r nv Hv Hs He Hni) in Hset.
+    rewrite (traverse_view E t c st fs w so j r2 Hv) in Ht.
+    destruct (nth_error_same_length fts fs i fti (eq_sym (wt_fields_length E A fts fs Hwf)) Hni) as [fv Hfv].
+    rewrite Hfv in Hset.
+    destruct (route_set E f fti fv r nv) as [fv'|] eqn:Hg; [|discriminate].
+    inversion Hset; subst c'. rewrite traverse_upd.
+    assert (Hwv : wt E A fti fv) by (eapply wt_fields_nth; eassumption).
+    destruct (Nat.eq_dec i j) as [Hij | Hij].
+    + subst j. rewrite (nth_error_replace_same fs i fv' fv Hfv).
+      rewrite Hni in Hnj. inversion Hnj; subst ftj.
+      rewrite unrelated_cons in Hu.
+      eapply IH; [exact Hwv | exact Hr' | exact Hr0' | exact Hu | exact Hg |].
+      destruct so as [fs'|].
+      * rewrite (sview_so E t c st fs w _ fs' Hv eq_refl) in *. rewrite Hfv in Ht. exact Ht.
+      * rewrite (Hso eq_refl) in Hfv. rewrite (map_nth_error (zero_of E) i fts Hni) in Hfv.
+        inversion Hfv; subst fv. apply traverse_zero. exact Hr0'.
+    + rewrite (nth_error_replace_other fs i j fv' Hij).
+      destruct so as [fs'|].
+      * rewrite (sview_so E t c st fs w _ fs' Hv eq_refl) in *. exact Ht.
+      * rewrite (Hso eq_refl). rewrite (map_nth_error (zero_of E) j fts Hnj).
+        apply traverse_zero. exact Hr0'.
+Qed.
+
+(* a write along a route reachable in v keeps unreachable what is unreachable in v *)
+Lemma route_set_none E A : forall r r0 fuel t v c ft ft0 nv c',
+  wt E A t v -> wt E A t c -> route_okb E t r ft = true -> route_okb E t r0 ft0 = true ->
+  unrelated r0 r = true -> route_set E fuel t c r nv = Some c' ->
+  traverse r v <> None -> traverse r0 v = None -> traverse r0 c = None -> traverse r0 c' = None.
+Proof.
+  induction r as [|i r IH]; intros r0 fuel t v c ft ft0 nv c' Hwv Hw Hr Hr0 Hu Hset Hrv Hnv Hnc.
+  - rewrite unrelated_nil_r in Hu. discriminate.
+  - destruct r0 as [|j r2]; [discriminate|].
+    destruct fuel as [|f]; [discriminate|].
+    destruct (sview_exists E A t c i r ft Hw Hr) as (st & id & fts & fti & fs & w & so & Hv & Hs & He & Hni & Hr' & Hwf & Hnb & Hso).
+    destruct (sview_exists E A t v i r ft Hwv Hr) as (st' & id' & fts' & fti' & vs & w' & sov & Hvv & Hs' & He' & Hni' & _ & Hwfv & _ & _).
+    rewrite (sview_st E t v st' vs w' sov Hvv) in Hs'. rewrite <- (sview_st E t c st fs w so Hv) in Hs'.
+    rewrite Hs in Hs'. inversion Hs'; subst id'. rewrite He in He'. inversion He'; subst fts'.
+    rewrite Hni in Hni'. inversion Hni'; subst fti'. clear Hs' He' Hni'.
+    destruct (route_okb_cons_inv E t j r2 ft0 Hr0) as (id0 & fts0 & ftj & _ & Hs0 & He0 & Hnj & Hr0').
+    rewrite <- (sview_st E t c st fs w so Hv) in Hs0. rewrite Hs in Hs0. inversion Hs0; subst id0.
+    rewrite He in He0. inversion He0; subst fts0. clear Hs0 He0.
+    rewrite (route_set_view E f t c st fs w so id fts fti i r nv Hv Hs He Hni) in Hset.
+    rewrite (traverse_view E t c st fs w so j r2 Hv) in Hnc.
+    rewrite (traverse_view E t v st' vs w' sov j r2 Hvv) in Hnv.
+    rewrite (traverse_view E t v st' vs w' sov i r Hvv) in Hrv.
+    destruct sov as [vs'|]; [|contradiction Hrv; reflexivity].
+    rewrite (sview_so E t v st' vs w' _ vs' Hvv eq_refl) in *.
+    destruct (nth_error vs i) as [vi|] eqn:Hvi; [|contradiction Hrv; reflexivity].
+    destruct (nth_error_same_length fts fs i fti (eq_sym (wt_fields_length E A fts fs Hwf)) Hni) as [fv Hfv].
+    rewrite Hfv in Hset.
+    destruct (route_set E f fti fv r nv) as [fv'|] eqn:Hg; [|discriminate].
+    inversion Hset; subst c'. rewrite traverse_upd.
+    destruct (nth_error_same_length fts vs j ftj (eq_sym (wt_fields_length E A fts vs Hwfv)) Hnj) as [vj Hvj].
+    rewrite Hvj in Hnv.
+    assert (Hwvj : wt E A ftj vj) by (eapply wt_fields_nth; eassumption).
+    destruct (Nat.eq_dec i j) as [Hij | Hij].
+    + subst j. rewrite (nth_error_replace_same fs i fv' fv Hfv).
+      rewrite Hni in Hnj. inversion Hnj; subst ftj. rewrite Hvi in Hvj. inversion Hvj; subst vj.
+      rewrite unrelated_cons in Hu.
+      eapply (IH r2 f fti vi fv ft ft0 nv fv'); try eassumption.
+      * eapply wt_fields_nth; eassumption.
+      * destruct so as [fs'|].
+        -- rewrite (sview_so E t c st fs w _ fs' Hv eq_refl) in *. rewrite Hfv in Hnc. exact Hnc.
+        -- rewrite (Hso eq_refl) in Hfv. rewrite (map_nth_error (zero_of E) i fts Hni) in Hfv.
+           inversion Hfv; subst fv. eapply traverse_none_zero; eassumption.
+    + rewrite (nth_error_replace_other fs i j fv' Hij).
+      destruct so as [fs'|].
+      * rewrite (sview_so E t c st fs w _ fs' Hv eq_refl) in *. exact Hnc.
+      * rewrite (Hso eq_refl). rewrite (map_nth_error (zero_of E) j fts Hnj).
+        eapply traverse_none_zero; eassumption.
+Qed.
